@@ -789,6 +789,11 @@ func (w *world) genTieHistory(r *hx.Rng, hi int) *history {
 			ch = ah + 1 + uint64(r.Intn(int(hgt-ah)+2))
 		}
 		pv := pC
+		if c == 0 && pL1 != pLat && r.Intn(4) != 0 {
+			// directed: strictly between the first local block above A and the local block at this height,
+			// so that a tie-break taken anywhere but at the fork point decides the other way
+			pv = (pL1 + pLat) / 2
+		}
 		if c > 0 {
 			pv = int64(5 * (1 + r.Intn(7)))
 		}
